@@ -74,6 +74,10 @@ def impl(case, how="array", again=True):
                 "plb": [float(v) for v in np.ravel(vt.orig_plb)], "pub": [float(v) for v in np.ravel(vt.orig_pub)],
                 # the problem BADS actually works on: internal (transformed) bounds and the gridised start point
                 "int": [[float(v) for v in np.ravel(a)] for a in (b.lower_bounds, b.upper_bounds, b.plausible_lower_bounds, b.plausible_upper_bounds, b.u)]}
+        sms = float(b.optim_state["search_mesh_size"])
+        q = np.ravel(b.u) / sms
+        norm["u_on_grid"] = bool(np.all(np.abs(q - np.round(q)) <= 1e-9 * np.maximum(1.0, np.abs(q))))
+        norm["sms"] = sms
         return "ok", norm, calls[0], ""
     except ValueError as ex:
         return "ValueError", None, calls[0], str(ex)[:80]
@@ -124,6 +128,19 @@ def gen_cases(ctx):
     # D = 2: EVERY ordered pair of coordinate tuples with all vectors present (so that cross-coordinate effects of the
     # any()/sum() style tests are met), then random pairs/triples with the presence patterns
     for c1 in coords:
+        cases.append({"D": 1, **{k: [c1[j]] for j, k in enumerate(("x0", "lb", "ub", "plb", "pub"))}})
+    # start points a little more than the 0.1% margin away from a hard bound of a log-scaled (or coarsely gridded) coordinate: the gridised start
+    # can overshoot the bound and has to be moved back INSIDE, onto the grid
+    near = [(99.89, 0.01, 100., 0.5246931069752093, 66.29488468893304)]
+    for _ in range(30 if ctx.quick else 200):
+        lo_, hi_ = 10.0 ** rng.uniform(-3, 0), 10.0 ** rng.uniform(1, 3)
+        p_ = lo_ * 10.0 ** rng.uniform(0.2, 1.5); q_ = hi_ / 10.0 ** rng.uniform(0.05, 0.6)
+        if q_ / p_ < 10:
+            continue
+        side = rng.random() < 0.5
+        x_ = hi_ * (1 - rng.uniform(1.05e-3, 2e-3)) if side else lo_ * (1 + rng.uniform(1.05e-3, 2e-3) * (hi_ / lo_ - 1))
+        near.append((x_, lo_, hi_, p_, q_))
+    for c1 in near:
         cases.append({"D": 1, **{k: [c1[j]] for j, k in enumerate(("x0", "lb", "ub", "plb", "pub"))}})
     for c1 in coords:
         for c2 in coords:
@@ -194,6 +211,9 @@ def check_cases(ctx, cases, rep, tag="case"):
             fin = np.isfinite(l)
             if not np.all(np.isfinite(x)) or not np.all((l[fin] < x[fin]) & (x[fin] < u[fin])):
                 rep.violation("x0_strictly_inside", SITE, f"{tag}: start point not strictly inside finite hard bounds: {norm}; {desc}", case)
+            if norm.get("u_on_grid") is False:
+                rep.violation("internal_problem_wellformed", "bads.py:_init_optim_state_", f"{tag}: the start point the run begins from ({norm['int'][4]}, internal coordinates) is not a point "
+                              f"of the initial search grid (mesh {norm['sms']}): it was moved onto a bound instead of to the nearest grid point inside the box; {desc}", case)
             # the INTERNAL problem the run will work on: finite-or-infinite (never NaN) bounds in the same order, a finite start point
             il, iu, ipl, ipu, iu0 = (np.array(a, dtype=float) for a in norm["int"])
             if np.any(np.isnan(il)) or np.any(np.isnan(iu)) or not np.all(np.isfinite(ipl)) or not np.all(np.isfinite(ipu)) or not np.all(np.isfinite(iu0)) \
